@@ -155,7 +155,13 @@ func (e *Exec) diffSession(ss *models.Session, s *MSession) []Diff {
 	}
 	// every member's connection has exactly one per-frame callback registered (it flushes the
 	// member's coalesced pose and component updates); read through an overlay accessor
-	tag = "C11,C13,C09"
+	// (fewer callbacks than members: a member's updates are never relayed - C11, C13, and the
+	// others' views go stale; more: a connection that left, or moved to another session, still has
+	// its updates released by this session's frames - C03, C06, a ghost in the sense of C08)
+	tag = "C11,C13,C09,C01,C02,C03,C08"
+	if n := models.VerifFrameHandlerCount(ss); n > len(got) {
+		tag = "C03,C06,C08,C09,C11"
+	}
 	if n := models.VerifFrameHandlerCount(ss); n != len(got) {
 		add("session has %d members but %d per-frame callbacks are registered (a member without one never gets its pose/component updates relayed)", len(got), n)
 	}
